@@ -4,6 +4,8 @@
 //!   vsim <CHECK> --seed S --start A --count N [--tier quick|thorough] [--budget-ms M] --out FILE
 //!   vsim <CHECK> --replay FILE --out FILE
 
+extern crate parking_lot as plsim;
+
 mod c01;
 mod c02;
 mod c03;
@@ -12,7 +14,9 @@ mod c05;
 mod c06;
 mod c08;
 mod c09;
+mod c10;
 mod c11;
+mod rpc;
 mod tiered;
 mod c13;
 mod c19;
@@ -23,6 +27,11 @@ mod report;
 mod rng;
 #[allow(dead_code)]
 mod simlibc;
+
+#[allow(dead_code, unused_imports, clippy::all)]
+mod server {
+    include!(concat!(env!("OUT_DIR"), "/server_included.rs"));
+}
 
 use report::Summary;
 use std::collections::HashMap;
@@ -71,6 +80,7 @@ fn main() {
             "C08" => c08::replay(&plan, &mut sum),
             "C05" => c05::replay(&plan, &mut sum),
             "C09" => c09::replay(&plan, &mut sum),
+            "C10" => c10::replay(&plan, &mut sum),
             "C11" => c11::replay(&plan, &mut sum),
             "C19" => c19::replay(&plan, &mut sum),
             "C04" => c04::replay("C04", &plan, &mut sum),
@@ -92,6 +102,7 @@ fn main() {
             "C08" => c08::run_batch(seed, start, count, &tier, budget_ms, &mut sum),
             "C05" => c05::run_batch(seed, start, count, &tier, budget_ms, &mut sum),
             "C09" => c09::run_batch(seed, start, count, &tier, budget_ms, &mut sum),
+            "C10" => c10::run_batch(seed, start, count, &tier, budget_ms, &mut sum),
             "C11" => c11::run_batch(seed, start, count, &tier, budget_ms, &mut sum),
             "C19" => c19::run_batch(seed, start, count, &tier, budget_ms, &mut sum),
             "C04" => c04::run_batch("C04", seed, start, count, &tier, budget_ms, &mut sum),
